@@ -14,5 +14,8 @@ Print Assumptions C16_lex_no_panic_refuted.
 Print Assumptions C21_parse_pinned_total.
 Print Assumptions C21_parse_dep_line_total.
 Print Assumptions C21_to_graph_total.
+Print Assumptions C21_parse_pinned_total_utf8.
+Print Assumptions C21_parse_dep_line_total_utf8.
+Print Assumptions C21_to_graph_total_utf8.
 Print Assumptions C23_apply_no_panic.
 Print Assumptions C23_session_no_panic.
